@@ -391,6 +391,8 @@ async def tee_peer(
                         # item already.
                         for peer_buffer in peers:
                             peer_buffer.append(item)
+                        # only the buffers keep the item alive, not this peer
+                        del item
             yield buffer.popleft()
     finally:
         await _tee_peer_done(iterator, buffer, peers)
